@@ -88,3 +88,14 @@ MUTANTS['C09'] = [
   ('wu-list-caches-results', [(C, "        bytes = memoryview(self._lst[start_addr:end_addr])\n        return pickle.loads(bytes)", "        if not hasattr(self, '_memo'):\n            self._memo = {}\n        if idx not in self._memo:\n            self._memo[idx] = pickle.loads(memoryview(self._lst[start_addr:end_addr]))\n        return self._memo[idx]")]),
   ('from_dict-shares-values-for-copy-of-copy', [(C, "    examples = {k: serialize(v) for k, v in examples.items()}\n    return DictDataset(examples, name=name).map(deserialize)", "    examples = {k: serialize(v) for k, v in examples.items()}\n    return DictDataset(examples, name=name).map(deserialize if immutable_warranty == 'pickle' else (lambda x: dict(x)))")]),
 ]
+
+MUTANTS['C10'] = [
+  ('cache-keyed-by-raw-negative-index', [(C, "                item = item + len(self)\n                if item < 0:\n                    raise IndexError(_item)\n            try:\n                return self._cache[item]", "                if item + len(self) < 0:\n                    raise IndexError(_item)\n            try:\n                return self._cache[item]")]),
+  ('copy-creates-new-cachewrapper', [(C, "        copy._cache = self._cache\n        copy._keep_mem_free = self._keep_mem_free", "        copy._cache = _CacheWrapper()\n        copy._keep_mem_free = self._keep_mem_free")]),
+  ('key-path-caches-under-key-string', [(C, "        if isinstance(item, str):\n            item = self.keys().index(item)\n\n        if isinstance(item, numbers.Integral):\n            if item < 0:", "        if isinstance(item, str):\n            if item not in self._cache:\n                value = self.input_dataset[item]\n                if self.check():\n                    self._cache[item] = value\n                return value\n            return self._cache[item]\n\n        if isinstance(item, numbers.Integral):\n            if item < 0:")]),
+  ('check-ignores-memory', [(C, "        if psutil.virtual_memory().available <= self._keep_mem_free:", "        if psutil.virtual_memory().available <= 0:")]),
+  ('latch-caches-every-other', [(C, "        if not self._do_cache:\n            return False\n", "        if not self._do_cache:\n            self._do_cache = True\n            return True\n")]),
+  ('store-before-compute-stale', [(C, "                value = self.input_dataset[item]\n                if self.check():\n                    self._cache[item] = value\n                return value", "                value = self.input_dataset[item]\n                if self.check():\n                    self._cache[item] = value\n                    return self.input_dataset[item] if item == 2 else value\n                return value")]),
+  ('eager-cache-returns-self', [(C, "            return new(self)\n", "            return self if self.indexable else new(self)\n")]),
+  ('iter-recomputes-instead-of-cache', [(C, "        else:\n            for i in range(len(self)):\n                yield self[i]\n\n    def __len__(self):\n        return len(self.input_dataset)\n\n    def copy(self, freeze: bool = False) -> 'Dataset':\n        if not freeze:\n            import warnings\n            warnings.warn(\n                'Copying a CacheDataset preserves the cache, i.e., the '\n                'already cached part of the dataset will be frozen even if '\n                'freeze=False!'\n            )\n        # We have to share the cache here because otherwise a new cache would\n        # be initialized at every copy and copy is called by prefetch before\n        # iterating over the dataset\n        copy = self.__class__.__new__(self.__class__)\n        copy.input_dataset = self.input_dataset.copy(freeze)\n        copy._cache = self._cache\n        copy._keep_mem_free", "        else:\n            for i in range(len(self)):\n                yield self[i] if i in self._cache or i % 2 else self.input_dataset[i]\n\n    def __len__(self):\n        return len(self.input_dataset)\n\n    def copy(self, freeze: bool = False) -> 'Dataset':\n        if not freeze:\n            import warnings\n            warnings.warn(\n                'Copying a CacheDataset preserves the cache, i.e., the '\n                'already cached part of the dataset will be frozen even if '\n                'freeze=False!'\n            )\n        # We have to share the cache here because otherwise a new cache would\n        # be initialized at every copy and copy is called by prefetch before\n        # iterating over the dataset\n        copy = self.__class__.__new__(self.__class__)\n        copy.input_dataset = self.input_dataset.copy(freeze)\n        copy._cache = self._cache\n        copy._keep_mem_free")]),
+]
